@@ -153,108 +153,27 @@ theorem resolve_act (props : List String) (s : Stacker) (op : Op) (a : Action)
   cases op with
   | stack incl => simp [resolve] at h
   | set sid col v =>
-    cases v with
-    | scalar c => simp only [resolve, Except.ok.injEq, Outcome.act.injEq] at h; subst h; rfl
-    | array cs =>
-      simp only [resolve] at h
-      split at h
-      · cases h
-      · split at h
-        · cases h
-        · simp only [Except.ok.injEq, Outcome.act.injEq] at h; subst h; rfl
-  | map sid col f =>
-    simp only [resolve] at h
-    split at h
-    · cases h
-    · split at h
-      · cases h
-      · simp only [Except.ok.injEq, Outcome.act.injEq] at h; subst h; rfl
-  | locSet sid mask cols v =>
-    simp only [resolve] at h
-    split at h
-    · cases h
-    · simp only [Except.ok.injEq, Outcome.act.injEq] at h; subst h; rfl
-  | locMap sid mask cols f =>
-    simp only [resolve] at h
-    split at h
-    · cases h
-    · split at h
-      · cases h
-      · split at h
-        · cases h
-        · simp only [Except.ok.injEq, Outcome.act.injEq] at h; subst h; rfl
+    cases v <;> simp only [resolve] at h <;> (repeat' split at h) <;> cases h <;> rfl
+  | map sid col f => simp only [resolve] at h <;> (repeat' split at h) <;> cases h <;> rfl
+  | locSet sid mask single cols v => simp only [resolve] at h <;> (repeat' split at h) <;> cases h <;> rfl
+  | locMap sid mask cols f => simp only [resolve] at h <;> (repeat' split at h) <;> cases h <;> rfl
   | attrSet sid name v =>
-    simp only [resolve] at h
-    split at h
-    · rename_i hp
-      have hp' : name ∈ props := by simpa using hp
-      cases v with
-      | scalar c =>
-        simp only [Except.ok.injEq, Outcome.act.injEq] at h; subst h
-        simp [specAction, hp']
-      | array cs =>
-        simp only at h
-        split at h
-        · cases h
-        · split at h
-          · cases h
-          · simp only [Except.ok.injEq, Outcome.act.injEq] at h; subst h
-            simp [specAction, hp']
-    · cases h
+    cases v <;> simp only [resolve] at h <;> (repeat' split at h) <;> cases h <;> simp_all [specAction]
   | attrMap sid name f =>
-    simp only [resolve] at h
-    split at h
-    · rename_i hp
-      have hp' : name ∈ props := by simpa using hp
-      split at h
-      · cases h
-      · split at h
-        · cases h
-        · simp only [Except.ok.injEq, Outcome.act.injEq] at h; subst h
-          simp [specAction, hp']
-    · split at h
-      · cases h
-      · simp only [bind, Except.bind] at h
-        split at h <;> cases h
+    simp only [resolve, bind, Except.bind] at h <;> (repeat' split at h) <;> cases h <;> simp_all [specAction]
 
 theorem resolve_pyattr (props : List String) (s : Stacker) (op : Op) (n : String) (v : Value)
     (h : resolve props s op = .ok (.pyattr n v)) : specAction props op = none := by
   cases op with
   | stack incl => simp [resolve] at h
-  | set sid col v' =>
-    cases v' with
-    | scalar c => simp [resolve] at h
-    | array cs => simp only [resolve] at h; split at h; · cases h
-                  · split at h <;> cases h
-  | map sid col f => simp only [resolve] at h; split at h; · cases h
-                     · split at h <;> cases h
-  | locSet sid mask cols v' => simp only [resolve] at h; split at h <;> cases h
-  | locMap sid mask cols f =>
-    simp only [resolve] at h
-    split at h
-    · cases h
-    · split at h
-      · cases h
-      · split at h <;> cases h
+  | set sid col v' => cases v' <;> simp only [resolve] at h <;> (repeat' split at h) <;> cases h
+  | map sid col f => simp only [resolve] at h <;> (repeat' split at h) <;> cases h
+  | locSet sid mask single cols v' => simp only [resolve] at h <;> (repeat' split at h) <;> cases h
+  | locMap sid mask cols f => simp only [resolve] at h <;> (repeat' split at h) <;> cases h
   | attrSet sid name v' =>
-    simp only [resolve] at h
-    split at h
-    · cases v' with
-      | scalar c => cases h
-      | array cs => simp only at h; split at h; · cases h
-                    · split at h <;> cases h
-    · rename_i hp
-      have hp' : name ∉ props := by simpa using hp
-      cases v' <;> simp [specAction, hp']
+    cases v' <;> simp only [resolve] at h <;> (repeat' split at h) <;> cases h <;> simp_all [specAction]
   | attrMap sid name f =>
-    simp only [resolve] at h
-    split at h
-    · split at h
-      · cases h
-      · split at h <;> cases h
-    · rename_i hp
-      have hp' : name ∉ props := by simpa using hp
-      simp [specAction, hp']
+    simp only [resolve, bind, Except.bind] at h <;> (repeat' split at h) <;> cases h <;> simp_all [specAction]
 
 theorem resolve_grow (props : List String) (s : Stacker) (op : Op) (col : String) (cs : List Cell)
     (h : resolve props s op = .ok (.grow col cs)) :
@@ -262,57 +181,21 @@ theorem resolve_grow (props : List String) (s : Stacker) (op : Op) (col : String
   cases op with
   | stack incl => simp [resolve] at h
   | set sid c v =>
-    cases v with
-    | scalar x => simp [resolve] at h
-    | array xs =>
-      simp only [resolve] at h
-      split at h
-      · rename_i he
-        simp only [Except.ok.injEq, Outcome.grow.injEq] at h
-        obtain ⟨h1, h2⟩ := h; subst h1; subst h2
-        have he' := he
-        simp only [Bool.and_eq_true, List.isEmpty_iff] at he'
-        exact ⟨he'.1, rfl⟩
-      · split at h <;> cases h
-  | map sid c f => simp only [resolve] at h; split at h; · cases h
-                   · split at h <;> cases h
-  | locSet sid mask cols v => simp only [resolve] at h; split at h <;> cases h
-  | locMap sid mask cols f =>
-    simp only [resolve] at h
-    split at h
-    · cases h
-    · split at h
-      · cases h
-      · split at h <;> cases h
+    cases v <;> simp only [resolve] at h <;> (repeat' split at h) <;> cases h
+    rename_i he
+    simp only [Bool.and_eq_true, List.isEmpty_iff] at he
+    exact ⟨he.1, rfl⟩
+  | map sid c f => simp only [resolve] at h <;> (repeat' split at h) <;> cases h
+  | locSet sid mask single cols v => simp only [resolve] at h <;> (repeat' split at h) <;> cases h
+  | locMap sid mask cols f => simp only [resolve] at h <;> (repeat' split at h) <;> cases h
   | attrSet sid name v =>
-    simp only [resolve] at h
-    split at h
-    · rename_i hp
-      cases v with
-      | scalar x => cases h
-      | array xs =>
-        simp only at h
-        split at h
-        · rename_i he
-          simp only [Except.ok.injEq, Outcome.grow.injEq] at h
-          obtain ⟨h1, h2⟩ := h; subst h1; subst h2
-          have he' := he
-          simp only [Bool.and_eq_true, List.isEmpty_iff] at he'
-          have hp' : name ∈ props := by simpa using hp
-          refine ⟨he'.1, ?_⟩
-          simp [specAction, hp']
-        · split at h <;> cases h
-    · cases h
+    cases v <;> simp only [resolve] at h <;> (repeat' split at h) <;> cases h
+    rename_i hp he
+    simp only [Bool.and_eq_true, List.isEmpty_iff] at he
+    refine ⟨he.1, ?_⟩
+    simp_all [specAction]
   | attrMap sid name f =>
-    simp only [resolve] at h
-    split at h
-    · split at h
-      · cases h
-      · split at h <;> cases h
-    · split at h
-      · cases h
-      · simp only [bind, Except.bind] at h
-        split at h <;> cases h
+    simp only [resolve, bind, Except.bind] at h <;> (repeat' split at h) <;> cases h
 
 theorem step_of_sid (w : MapW) (op : Op) (sid : Nat) (h : op.sid? = some sid) :
     step w op =
@@ -320,7 +203,7 @@ theorem step_of_sid (w : MapW) (op : Op) (sid : Nat) (h : op.sid? = some sid) :
       | none => (w, some .nostacker)
       | some s =>
         match resolve (propsOf w.mcls) s op with
-        | .error e => (w, some e)
+        | .error e => ({ w with stackers := w.stackers.set sid (errEffect s op) }, some e)
         | .ok (.pyattr name v) =>
             ({ w with stackers := w.stackers.set sid { s with pyattrs := (name, v) :: s.pyattrs } }, none)
         | .ok (.act a) => (applyAction w sid s a, none)
@@ -344,6 +227,13 @@ theorem specStep_failed (sw : SpecW) (op : Op) : specStep sw op true = sw := by 
 
 theorem growStacker_slots (s : Stacker) (col : String) (cs : List Cell) : (growStacker s col cs).slots = s.slots := rfl
 
+/-- a failing call never touches the rows of the copy nor the list of covered lists -/
+theorem errEffect_slots (s : Stacker) (op : Op) : (errEffect s op).slots = s.slots := by
+  cases op <;> simp only [errEffect] <;> split <;> rfl
+
+theorem errEffect_srows (s : Stacker) (op : Op) : (errEffect s op).srows = s.srows := by
+  cases op <;> simp only [errEffect] <;> split <;> rfl
+
 /-- **one call of a history**: the simulation is preserved when the stacker the call goes through is up to date -/
 theorem step_sim (w : MapW) (sw : SpecW) (op : Op) (hs : Sim w sw) (hf : FreshAt w op) :
     Sim (step w op).1 (specStep sw op (step w op).2.isSome) := by
@@ -366,7 +256,12 @@ theorem step_sim (w : MapW) (sw : SpecW) (op : Op) (hs : Sim w sw) (hf : FreshAt
       have hcoup := hf sid s hsid hst
       have hhs : sw.handles[sid]? = some (s.slots.map Option.isSome) := by simp [hh, hst]
       cases hr : resolve (propsOf w.mcls) s op with
-      | error e => simp only [hst, hr, Option.isSome_some, specStep_failed]; exact ⟨hm, ht, hh⟩
+      | error e =>
+        simp only [hst, hr, Option.isSome_some, specStep_failed]
+        refine ⟨hm, ht, ?_⟩
+        simp only [hh]
+        exact (map_set_same (fun s : Stacker => s.slots.map Option.isSome) w.stackers sid (errEffect s op) s hst
+          (by simp only [errEffect_slots])).symm
       | ok o =>
         cases o with
         | pyattr name v =>
@@ -559,7 +454,7 @@ example : (contents (run cexW [.stack (some ["NoteList"]), .locMap 0 [false, tru
     = [[(.num 1000, .num 1), (.num 4000, .num 4)], [], [(.num 0, .nan)]] := by decide +kernel
 
 /-- the error branches are covered, not totalised away: a raising call changes nothing in the model -/
-example : (runTrace cexW [.stack none, .attrMap 0 "volume" (.add 1), .locSet 0 [true] ["offset"] (.num 5),
+example : (runTrace cexW [.stack none, .attrMap 0 "volume" (.add 1), .locSet 0 [true] true ["offset"] (.num 5),
                            .set 0 "offset" (.array [.num 1]), .stack (some ["SMStopList"])]).map (·.2)
     = [none, some .attr, some .index, some .value, some .value] := by decide +kernel
 
@@ -664,5 +559,156 @@ theorem mapset_broadcast (key : String) : ∀ (maps : List MapW) (sids : List Na
         obtain ⟨⟨s, hst, hc⟩, hrest⟩ := hf
         simp only [setRows, specSetT, List.map_cons, hst, memberAt, ih sids rows hrest]
         rw [mapset_chart_assign m sid s key row hst hc]
+
+end Reamber.Stack
+
+namespace Reamber.Stack
+
+/-! ### ordinary usage: every assignment goes through the most recently created stacker -/
+
+/-- the call targets the newest stacker of the chart (or none that exists) -/
+def latestAtB (w : MapW) (op : Op) : Bool :=
+  match op.sid? with
+  | none => true
+  | some sid => decide (w.stackers.length ≤ sid + 1)
+
+/-- `m.stack().x = …`, `s = m.stack(); s.a += 1; s.loc[…] = …; s = m.stack(); …`: repeated re-stacking where only the
+newest stacker is ever assigned through -/
+def Latest (w : MapW) : List Op → Prop
+  | [] => True
+  | op :: ops => latestAtB w op = true ∧ Latest (step w op).1 ops
+
+def latestTrace (w : MapW) : List Op → List Bool
+  | [] => []
+  | op :: ops => latestAtB w op :: latestTrace (step w op).1 ops
+
+/-- invariant of such histories: the lists are well-formed and the newest stacker is coupled -/
+def LastCoupled (w : MapW) : Prop :=
+  (∀ l ∈ w.lists, WFList l) ∧
+  ∀ s, w.stackers[w.stackers.length - 1]? = some s → Coupled s.srows 0 w.lists s.slots
+
+theorem getElem?_set_last {α} (l : List α) (i : Nat) (x y : α) (hi : l[i]? = some y) (hl : l.length ≤ i + 1) :
+    (l.set i x)[(l.set i x).length - 1]? = some x := by
+  have hlt : i < l.length := by
+    by_cases h : i < l.length
+    · exact h
+    · have : l[i]? = none := by simp; omega
+      rw [this] at hi; cases hi
+  have : l.length - 1 = i := by omega
+  rw [List.length_set, this, List.getElem?_set_self hlt]
+
+theorem lastCoupled_freshAt (w : MapW) (op : Op) (hj : LastCoupled w) (hl : latestAtB w op = true) : FreshAt w op := by
+  intro sid s hsid hst
+  simp only [latestAtB, hsid, decide_eq_true_eq] at hl
+  have hlt : sid < w.stackers.length := by
+    by_cases h : sid < w.stackers.length
+    · exact h
+    · have : w.stackers[sid]? = none := by simp; omega
+      rw [this] at hst; cases hst
+  have : w.stackers.length - 1 = sid := by omega
+  exact hj.2 s (by rw [this]; exact hst)
+
+theorem lastCoupled_step (w : MapW) (op : Op) (hj : LastCoupled w) (hl : latestAtB w op = true) :
+    LastCoupled (step w op).1 := by
+  obtain ⟨hwf, hlast⟩ := hj
+  cases hsid : op.sid? with
+  | none =>
+    cases op <;> simp only [Op.sid?] at hsid <;> try cases hsid
+    rename_i incl
+    cases h : mkStacker (inclOf incl) w.lists with
+    | error e => simp only [step, h]; exact ⟨hwf, hlast⟩
+    | ok s =>
+      simp only [step, h]
+      refine ⟨hwf, ?_⟩
+      intro s' hs'
+      simp at hs'
+      subst hs'
+      exact coupled_mkStacker _ _ _ hwf h
+  | some sid =>
+    rw [step_of_sid w op sid hsid]
+    simp only [latestAtB, hsid, decide_eq_true_eq] at hl
+    cases hst : w.stackers[sid]? with
+    | none => simp only [hst]; exact ⟨hwf, hlast⟩
+    | some s =>
+      have hlt : sid < w.stackers.length := by
+        by_cases h : sid < w.stackers.length
+        · exact h
+        · have : w.stackers[sid]? = none := by simp; omega
+          rw [this] at hst; cases hst
+      have hidx : w.stackers.length - 1 = sid := by omega
+      have hcoup : Coupled s.srows 0 w.lists s.slots := hlast s (by rw [hidx]; exact hst)
+      cases hr : resolve (propsOf w.mcls) s op with
+      | error e =>
+        simp only [hst, hr]
+        refine ⟨hwf, ?_⟩
+        intro s' hs'
+        simp only at hs'
+        rw [getElem?_set_last _ _ _ _ hst hl] at hs'
+        cases hs'
+        rw [errEffect_srows, errEffect_slots]
+        exact hcoup
+      | ok o =>
+        cases o with
+        | pyattr name v =>
+          simp only [hst, hr]
+          refine ⟨hwf, ?_⟩
+          intro s' hs'
+          simp only at hs'
+          rw [getElem?_set_last _ _ _ _ hst hl] at hs'
+          cases hs'
+          exact hcoup
+        | act a =>
+          simp only [hst, hr]
+          refine ⟨wf_writeBack _ _ _ _ hwf, ?_⟩
+          intro s' hs'
+          simp only [applyAction] at hs'
+          rw [getElem?_set_last _ _ _ _ hst hl] at hs'
+          cases hs'
+          exact assign_keeps_coupled w sid s a hcoup
+        | grow col cs =>
+          obtain ⟨hnil, _⟩ := resolve_grow _ _ _ _ _ hr
+          simp only [hst, hr]
+          refine ⟨wf_writeBack _ _ _ _ hwf, ?_⟩
+          intro s' hs'
+          simp only at hs'
+          rw [getElem?_set_last _ _ _ _ hst hl] at hs'
+          cases hs'
+          rw [hnil] at hcoup
+          exact coupled_of_empty _ w.lists 0 s.slots hcoup
+
+theorem latest_fresh (w : MapW) (ops : List Op) (hj : LastCoupled w) (hl : Latest w ops) : Fresh w ops := by
+  induction ops generalizing w with
+  | nil => trivial
+  | cons op ops ih =>
+    exact ⟨lastCoupled_freshAt w op hj hl.1, ih _ (lastCoupled_step w op hj hl.1) hl.2⟩
+
+/-- **write_through_latest** — no hypothesis on the run: for every well-formed chart without live stackers (any
+lists, empty ones, any labels) and every finite history in which each assignment goes through the most recently
+created stacker of the chart (the ordinary usage: `m.stack().x = …`, `s = m.stack(); s.a op= …; s.loc[…] = …`, repeated
+re-stacking, `include_types`, raising calls), the lists at the end are what the specification run gives.  `Latest` is
+a condition on the *calls* only (which stacker each one names). -/
+theorem write_through_latest (w : MapW) (ops : List Op) (hwf : ∀ l ∈ w.lists, WFList l) (h0 : w.stackers = [])
+    (hl : Latest w ops) :
+    contents (run w ops).lists = (specRun (toSpec w) (ops.zip (errs w ops))).tbls :=
+  write_through w ops (latest_fresh w ops ⟨hwf, by intro s hs; simp [h0] at hs⟩ hl)
+
+theorem latest_of_latestTrace (w : MapW) (ops : List Op) (h : (latestTrace w ops).all id = true) : Latest w ops := by
+  induction ops generalizing w with
+  | nil => trivial
+  | cons op ops ih =>
+    simp only [latestTrace, List.all_cons, id, Bool.and_eq_true] at h
+    exact ⟨h.1, ih _ h.2⟩
+
+theorem wfList_of_wfListB (l : TList) (h : wfListB l = true) : WFList l := by
+  simp only [wfListB, Bool.and_eq_true, decide_eq_true_eq, List.all_eq_true] at h
+  exact ⟨h.1, fun r hr => h.2 r hr⟩
+
+/-- non-vacuity: the docstring usage (`stack.offset *= 2`; inline `m.stack().offset *= 2`; `loc`) is `Latest` -/
+example : Latest cexW [.stack none, .attrMap 0 "offset" (.mul 2), .stack none, .attrMap 1 "offset" (.mul 2),
+                        .locMap 1 [false, true, false] ["column"] (.add 1)] :=
+  latest_of_latestTrace _ _ (by decide +kernel)
+
+/-- …and the D25 history is not -/
+example : latestTrace cexW cexOps = [true, true, true, false] := by decide +kernel
 
 end Reamber.Stack
